@@ -160,4 +160,72 @@ class ConnGetRecord(Unit):
         ctx.ensure("C13 reading the record does not touch the delivered-message log", z3.BoolVal(len(c.f["_record_messages"]) == m and all(a is b for a, b in zip(c.f["_record_messages"], msgs))))
 
 
-UNITS = [NodeGetRecord(), NodeGetRecordNone(), ConnGetRecord()]
+
+AS = "rex/asynchronous.py"
+
+
+class NodeRecordSettings(Unit):
+    """_AsyncNodeWrapper.set_record_settings: a given flag (or record limit) replaces the stored one, None keeps it; nothing else is touched"""
+    name = "_AsyncNodeWrapper.set_record_settings"
+    target = AS + "::_AsyncNodeWrapper.set_record_settings"
+    props = ("C13",)
+
+    def configs(self):
+        yield "all given", dict(given=FLAGS + ["max_records"])
+        yield "none given", dict(given=[])
+        yield "inputs and max_records only", dict(given=["inputs", "max_records"])
+
+    def run(self, ctx):
+        ex, cfg = ctx.ex, ctx.cfg
+        old = {k: z3.Bool(f"old.{k}") for k in FLAGS}
+        setting = dict(old)
+        w = Rec("_AsyncNodeWrapper", dict(_record_setting=setting, _max_records=z3.Int("old.max_records"), other=leaf("other")), module=AS)
+        kw = {k: (z3.Bool(f"new.{k}") if k != "max_records" else z3.Int("new.max_records")) for k in cfg["given"]}
+        ctx.call(self_obj=w, kwargs=kw)
+        ctx.ensure("C13 every given switch replaces the stored one, every omitted one (None) is kept",
+                   z3.And(*[toz(w.f["_record_setting"][k]) == (kw[k] if k in kw else old[k]) for k in FLAGS], toz(w.f["_max_records"]) == (kw["max_records"] if "max_records" in kw else z3.Int("old.max_records"))))
+        ctx.ensure("frame: the same settings dict, exactly the five switches, nothing else on the wrapper", z3.BoolVal(w.f["_record_setting"] is setting and set(setting) == set(FLAGS) and set(w.f) == {"_record_setting", "_max_records", "other"}))
+
+
+class GraphRecordApi(Unit):
+    """AsyncGraph.set_record_settings hands every node its own value (a plain value goes to all nodes, a dict entry to the node it names, nodes without an entry get None = keep);
+    AsyncGraph.get_record collects exactly one record per node, under the node's name, from that node's get_record"""
+    name = "AsyncGraph.set_record_settings / get_record"
+    target = AS + "::AsyncGraph.set_record_settings"
+    props = ("C13",)
+
+    def configs(self):
+        yield "plain values", dict(mode="plain")
+        yield "per-node dicts (partial)", dict(mode="dict")
+        yield "nothing given", dict(mode="none")
+
+    def run(self, ctx):
+        ex, cfg = ctx.ex, ctx.cfg
+        got = {}
+
+        def mk(name):
+            return Rec("_AsyncNodeWrapper", dict(name=name, set_record_settings=lambda ex_, **k: got.__setitem__(name, k), get_record=lambda ex_: leaf(f"record_of_{name}")), module=None)
+        nodes = {n: mk(n) for n in ("a", "b", "c")}
+        g = Rec("AsyncGraph", dict(_async_nodes=nodes), module=AS)
+        keys = FLAGS + ["max_records"]
+        if cfg["mode"] == "plain":
+            kw = {k: (z3.Bool(f"v.{k}") if k != "max_records" else z3.Int("v.max_records")) for k in keys}
+            want = {n: dict(kw) for n in nodes}
+        elif cfg["mode"] == "dict":
+            kw = {k: {"a": (z3.Bool(f"a.{k}") if k != "max_records" else z3.Int("a.max_records"))} for k in keys}
+            kw["state"] = {"b": z3.Bool("b.state"), "c": z3.Bool("c.state")}
+            want = {n: {k: kw[k].get(n) for k in keys} for n in nodes}
+        else:
+            kw = {}
+            want = {n: {k: None for k in keys} for n in nodes}
+        ctx.call(self_obj=g, kwargs=kw)
+        same = lambda x, y: (x is None and y is None) or (x is not None and y is not None and z3.eq(toz(x), toz(y)))
+        ctx.ensure("C13 every node is configured exactly once, with its own value for every switch (None = keep) - a plain value reaches every node, a dict entry only the node it names",
+                   z3.BoolVal(set(got) == set(nodes) and all(set(got[n]) == set(keys) and all(same(got[n][k], want[n][k]) for k in keys) for n in got)))
+        rec = ex.call(ex.getattr(g, "get_record"), [], {})
+        ok = isinstance(rec, Rec) and rec.cls == "EpisodeRecord" and isinstance(rec.f.get("nodes"), dict)
+        ctx.ensure("C13 the episode record holds exactly one record per node, under the node's name, and it is that node's own record",
+                   z3.BoolVal(ok and list(rec.f["nodes"]) == list(nodes) and all(is_sym(rec.f["nodes"][n]) and z3.eq(rec.f["nodes"][n], leaf(f"record_of_{n}")) for n in nodes)))
+
+
+UNITS = [NodeGetRecord(), NodeGetRecordNone(), ConnGetRecord(), NodeRecordSettings(), GraphRecordApi()]
